@@ -28,8 +28,8 @@ def budget(tier):
 @st.composite
 def _case(draw):
     prof = S.profile(max_methods=4, max_services=2, p_http=0.65, p_sig=0.15, p_routing=0.05, p_paged=0.05, p_lro=0.05, p_stream=0.2,
-                     p_dep_io=0.0, p_comment=0.02, max_messages=3, max_fields=3, max_files=1, p_additional=0.0, p_map=0.0, repeated_messages=False,
-                     p_dep_type=0.0, p_reserved_field=0.0)
+                     p_dep_io=0.0, p_comment=0.02, max_messages=3, max_fields=3, max_files=2, p_additional=0.0, p_map=0.0, repeated_messages=False,
+                     p_dep_type=0.0, p_reserved_field=0.0, services_in_subpackages=True, p_subpackage=0.3)
     api = draw(S.apis(prof))
     unary, streaming = [], []
     for f, s, m in M.all_methods(api):
